@@ -231,7 +231,9 @@ def convertVar (c : RCtx) (name : Sym) : Sym × List Err :=
         | some m => (m, [])
         | none => (name, [])
 
-/-- `convert_qualified_var` (the operator-intrinsic marker namespace is not modelled) -/
+/-- `convert_qualified_var` (the operator-intrinsic marker namespace is not modelled).  The whole check sits inside
+`if resolved_path.len() > 1 && let Some(is_public) = visibility_map.get(&resolved_name)`; `extract_path_from_mangled` is the
+identity on segment lists. -/
 def convertQVar (c : RCtx) (segs : List Name) : Sym × List Err :=
   let r := resolveQualifiedPath segs segs c.cur c.known
   let lookup := aliasChain c.info.alias r.1
@@ -242,7 +244,7 @@ def convertQVar (c : RCtx) (segs : List Name) : Sym × List Err :=
       | some pub =>
         if !pub && !isWithinHierarchy c.cur r.2 then [⟨r.2.dropLast, r.2.getLast?⟩]
         else if lookup ≠ r.1 ∧ lookup.length > 1 then
-          -- the path names a re-export: the member it leads to is checked as well (since the `fix:` after c6822e4)
+          -- the path names a re-export: the member it leads to is checked as well (since /repo 3b64798)
           privErr c.cur c.info.vis lookup lookup
         else []
     else [])
